@@ -7,8 +7,10 @@ namespace Jrpc.Facts
 
 theorem doCall_recovers : Generated.doCallDefersRecover = true := by decide
 
-/-- the reflective call sits after the deferred recover, and it is the only one in `doCall` -/
-theorem doCall_call_after_defer : Generated.doCallReflectCalls = ["f.Call afterDefer=true"] := by decide
+/-- the reflective calls (`CallSlice` for a variadic method, `Call` otherwise) sit after the deferred recover, and
+    they are the only ones in `doCall` -/
+theorem doCall_call_after_defer :
+    Generated.doCallReflectCalls = ["f.CallSlice afterDefer=true", "f.Call afterDefer=true"] := by decide
 
 /-- `handlerFunc` is only ever passed to `doCall` (or asked for its type) -/
 theorem handlerFunc_only_via_doCall :
